@@ -224,7 +224,20 @@ def rand_case(rng: random.Random) -> dict:
             d["yield_from"] = rng.random() < 0.5
         mgrs.append(d)
     for j in range(n, n + 3):
-        mgrs.append({"id": j, "kind": "plain", "uw": rng.choice([None, None, "prune", rng.randrange(n)]), "el": None})
+        if rng.random() < 0.35:
+            # the replacement an elaborate hook installs is itself a generator-based manager with a registered
+            # unwrap_context_generator hook: it is unwrapped before its own elaborate hook has run (inner_stack not set yet)
+            mgrs.append({"id": j, "kind": "gcm", "uw": rng.choice([None, "prune", rng.randrange(n), rng.randrange(n)]),
+                         "el": {"inner": j, "desc": j, "gcm": True}, "yield_from": rng.random() < 0.5})
+        else:
+            mgrs.append({"id": j, "kind": "plain", "uw": rng.choice([None, None, "prune", rng.randrange(n)]), "el": None})
+    kinds = {m["id"]: m["kind"] for m in mgrs}
+    for m in mgrs:
+        el = m.get("el") or {}
+        if m["kind"] == "plain" and kinds.get(el.get("obj")) == "gcm":
+            # (a hook that installs a generator-based manager AND a frameless inner_stack of its own makes the contextlib glue
+            # look at that inner_stack: a combination with no documented meaning, kept out of the space)
+            el.pop("inner", None)
     return {"k": "fill", "obj": 0, "exiting": rng.random() < 0.35, "mgrs": mgrs, "where": rng.choice(["outside", "inside"])}
 
 
